@@ -68,7 +68,7 @@ TLocalClose == IsEvent("lclose") /\ LocalClose(CloseCodeSent(Ev.react.sent)) /\ 
 
 THeader == /\ IsEvent("hdr")
            /\ Len(Ev.h) = HdrLen(Ev.h)
-           /\ Header(Ev.h) \/ AfterFailure \/ AfterClosed
+           /\ Header(Ev.h, Ev.dlen) \/ AfterFailure \/ AfterClosed
            /\ Matches(Ev.react)
 
 TPayload == /\ IsEvent("pay")
